@@ -2,6 +2,7 @@
 Driver for stream `flags` (C16): one op per line, one observation per line.
 
   case <k>                                   -> case <k>
+  hf <n>                                     -> ok        (hardfork index of the following lines of the case; default 7)
   cancall <perms> <hash> <groups> <method>   -> <canCall> <isAllowed of each permission as 0/1, or - if none>
         perms  = `-` | perm(;perm)*     perm = (w | h<id> | g<id>) `:` (`*` | `-` | name(,name)*)
         groups = `-` | id(,id)*
@@ -10,7 +11,9 @@ Driver for stream `flags` (C16): one op per line, one observation per line.
   sys <name> <F> <observed effects>          -> (denied | passed) (within | beyond) | unclassified
   nat <contract> <method> <nparams> <hf> <F> <observed effects>   -> same
         F = flags (0..15) of the context executing the primitive; observed effects ⊆ "wnc" or `-`;
-        `within`: the observed effects are among those of the hand-written expectation table
+        `within`: the observed effects (of the whole execution below the primitive) are among the REGENERATED
+        may-effects of the primitive (Generated.Effects, call-graph walk of the handler); a primitive that MAY start a
+        call covers whatever the called context did
   sysseq <F> <observed effects> <name>+      -> (denied | passed) (within | beyond) | unclassified
         the named system calls executed in this order by one context with flags F; `denied` if one of them is
         refused; the observed effects must be among those of the calls before the refused one
@@ -29,16 +32,27 @@ Driver for stream `flags` (C16): one op per line, one observation per line.
         `beyond` is appended if the observed effects are not among those of the system calls that ran
   loadscript <F> <requested>                 -> denied | <child flags>
   nativecall <F>                             -> <flags of a context started by contract.CallFromNative from a native context with flags F>
+  tokcall <caller id> <callee id> <method> <safe 0/1>
+        entry(All) calls caller.ta/ts (requested All), which executes CALLT of a NEF method token (flags All) for
+        callee.method                      -> halt <callee flags> | fault:perm | fault:flags
+  updcall <caller id> <new permissions | gone> <callee id> <method> <safe 0/1>
+        entry(All) calls caller.upd/des, which has ContractManagement (contract id 1000) update its manifest to the
+        new permissions / destroy it, and then calls callee.method: before Domovoi the permission check reads the
+        stored manifest (none once destroyed), from Domovoi on the executing context's   -> halt | fault:perm
+  mvalid / mitem / mcancall                  -> whole manifests (Model/Flags/Manifest.lean), see Driver/FlagsManIO.lean and
+                                                harness/cmd/flags/manifest.go for the line format
   dynchain <F0> <relay id> <callee id> <method> <safe 0/1>
         entry(F0) calls relay.dyn (requested All), which loads a dynamic script (requested All), which calls
         callee.method (requested All)       -> halt <callee flags> | fault:flags <n> | fault:perm <n>
 -/
 import NeoModel.Base.Proto
 import NeoModel.Model.Flags
+import Driver.FlagsManIO
 open NeoModel NeoModel.Flags NeoModel.Generated
 
 structure St where
   contracts : List (Nat × Manifest) := []
+  hf : Nat := 7
 
 def parseList (s : String) : List String := if s == "-" then [] else s.splitOn ","
 
@@ -61,8 +75,10 @@ def parsePerms (s : String) : Option (List Permission) :=
 def parseEffects (s : String) : Effects :=
   ⟨s.toList.contains 'w', s.toList.contains 'n', s.toList.contains 'c'⟩
 
+/-- observed (whole execution below the primitive) vs. may-effects of the primitive: a primitive that may start a
+call is followed by the called context's own effects, which are that context's business. -/
 def effWithin (obs exp : Effects) : Bool :=
-  (!obs.write || exp.write) && (!obs.notify || exp.notify) && (!obs.call || exp.call)
+  exp.call || ((!obs.write || exp.write) && (!obs.notify || exp.notify) && !obs.call)
 
 def b01 (b : Bool) : String := if b then "1" else "0"
 
@@ -102,7 +118,7 @@ def parseHop (s : String) : Option Hop :=
 /-- runs the hops on the machine; on a fault tells whether the flag check or the permission check failed
 (SyscallHandler's flag check precedes callInternal's permission check). -/
 def runChain (st : St) (f0 : Nat) (hops : List Hop) : String :=
-  match syscallPrim "System.Contract.Call" with
+  match syscallPrim st.hf "System.Contract.Call" with
   | none => "unclassified"
   | some sc =>
     let rec go (s : State) (hs : List Hop) (entered : List Nat) : String :=
@@ -111,7 +127,9 @@ def runChain (st : St) (f0 : Nat) (hops : List Hop) : String :=
       | h :: rest =>
         let m : Manifest := ((st.contracts.find? (·.1 == h.id)).map (·.2)).getD ⟨[], []⟩
         let t : Target := ⟨h.id, m, h.method, h.safe⟩
-        let s' := step Params.real s (.call sc false (CallFlags.ofNat h.rq) t)
+        -- ContractManagement's storage holds the caller's deployed manifest (nothing was updated in this execution)
+        let stored : Option Manifest := match s.stack with | cur :: _ => cur.manifest | [] => none
+        let s' := step (Params.realAt st.hf) s (.call sc false (CallFlags.ofNat h.rq) t stored)
         if s'.halted then
           match s.stack with
           | cur :: _ => (if cur.flags.has sc.req then "fault:perm " else "fault:flags ") ++ toString entered.length
@@ -120,11 +138,15 @@ def runChain (st : St) (f0 : Nat) (hops : List Hop) : String :=
           match s'.stack with
           | child :: _ => go s' rest (child.flags.toNat :: entered)
           | [] => "bad"
-    go (State.init ⟨CallFlags.ofNat f0, none, false⟩) hops []
+    go (State.init (Frame.entry (CallFlags.ofNat f0) none)) hops []
 
 def step' (st : St) (ws : List String) : St × String :=
   match ws with
   | ["case", k] => ({}, s!"case {k}")
+  | ["hf", n] =>
+    match n.toNat? with
+    | some n => ({ st with hf := n }, "ok")
+    | none => (st, "bad-op")
   | ["cancall", perms, hash, groups, method] =>
     match parsePerms perms, hash.toNat?, parseNats groups with
     | some ps, some h, some gs =>
@@ -146,7 +168,7 @@ def step' (st : St) (ws : List String) : St × String :=
     | _, _ => (st, "bad-op")
   | ["sys", name, f, obs] =>
     match f.toNat? with
-    | some f => (st, primVerdict (syscallPrim name) f obs)
+    | some f => (st, primVerdict (syscallPrim st.hf name) f obs)
     | none => (st, "bad-op")
   | ["nat", contract, method, np, hf, f, obs] =>
     match np.toNat?, hf.toNat?, f.toNat? with
@@ -156,7 +178,7 @@ def step' (st : St) (ws : List String) : St × String :=
       | none => (st, "absent")
     | _, _, _ => (st, "bad-op")
   | "sysseq" :: f :: obs :: names =>
-    match f.toNat?, names.mapM syscallPrim with
+    match f.toNat?, names.mapM (syscallPrim st.hf) with
     | some f, some ps =>
       let (d, e) := seqVerdict (CallFlags.ofNat f) ps
       (st, (if d then "denied " else "passed ") ++ (if effWithin (parseEffects obs) e then "within" else "beyond"))
@@ -164,7 +186,7 @@ def step' (st : St) (ws : List String) : St × String :=
     | none, _ => (st, "bad-op")
   | ["callt", f] =>
     match f.toNat? with
-    | some f => (st, if (CallFlags.ofNat f).has callTPrim.req then "passed" else "denied")
+    | some f => (st, if (CallFlags.ofNat f).has (callTPrim st.hf).req then "passed" else "denied")
     | none => (st, "bad-op")
   | ["contract", id, groups, perms] =>
     match id.toNat?, parseNats groups, parsePerms perms with
@@ -178,17 +200,17 @@ def step' (st : St) (ws : List String) : St × String :=
     match f.toNat? with
     | some f =>
       let p : Prim := ⟨CallFlags.empty, c⟩
-      let s := step Params.real (State.init ⟨CallFlags.ofNat f, none, false⟩) (.nativeCall p ⟨0, ⟨[], []⟩, "onNEP17Payment", false⟩)
+      let s := step (Params.realAt st.hf) (State.init (Frame.entry (CallFlags.ofNat f) none)) (.nativeCall p ⟨0, ⟨[], []⟩, "onNEP17Payment", false⟩)
       match s.stack with
       | child :: _ => (st, toString child.flags.toNat)
       | [] => (st, "bad")
     | none => (st, "bad-op")
   | ["dynchain", f0, rid, cid, method, sf] =>
-    match f0.toNat?, rid.toNat?, cid.toNat?, syscallPrim "System.Contract.Call", syscallPrim "System.Runtime.LoadScript" with
+    match f0.toNat?, rid.toNat?, cid.toNat?, syscallPrim st.hf "System.Contract.Call", syscallPrim st.hf "System.Runtime.LoadScript" with
     | some f0, some rid, some cid, some sc, some ls =>
       let man (id : Nat) : Manifest := ((st.contracts.find? (·.1 == id)).map (·.2)).getD ⟨[], []⟩
-      let prog : List Instr := [.call sc false CallFlags.all ⟨rid, man rid, "dyn", false⟩, .loadScript ls CallFlags.all,
-                                .call sc false CallFlags.all ⟨cid, man cid, method, sf == "1"⟩]
+      let prog : List Instr := [.call sc false CallFlags.all ⟨rid, man rid, "dyn", false⟩ none, .loadScript ls CallFlags.all,
+                                .call sc false CallFlags.all ⟨cid, man cid, method, sf == "1"⟩ none]
       -- run instruction by instruction to know where it stopped and why
       let rec go (s : State) (is : List Instr) (n : Nat) : String :=
         match is with
@@ -196,27 +218,27 @@ def step' (st : St) (ws : List String) : St × String :=
           | top :: _ => s!"halt {top.flags.toNat}"
           | [] => "bad"
         | i :: rest =>
-          let s' := step Params.real s i
+          let s' := step (Params.realAt st.hf) s i
           if s'.halted then
             match s.stack, i.prim? with
             | cur :: _, some p => (if cur.flags.has p.req then "fault:perm " else "fault:flags ") ++ toString n
             | _, _ => "bad"
           else go s' rest (n + 1)
-      (st, go (State.init ⟨CallFlags.ofNat f0, none, false⟩) prog 0)
+      (st, go (State.init (Frame.entry (CallFlags.ofNat f0) none)) prog 0)
     | _, _, _, _, _ => (st, "bad-op")
   | "callflags" :: via :: f :: rq :: sf :: [] =>
-    match f.toNat?, rq.toNat?, (if via == "ct" then some callTPrim else syscallPrim "System.Contract.Call") with
+    match f.toNat?, rq.toNat?, (if via == "ct" then some (callTPrim st.hf) else syscallPrim st.hf "System.Contract.Call") with
     | some f, some rq, some p =>
-      let s := step Params.real (State.init ⟨CallFlags.ofNat f, none, false⟩) (.call p (via == "ct") (CallFlags.ofNat rq) ⟨1, ⟨[], []⟩, "m", sf == "1"⟩)
+      let s := step (Params.realAt st.hf) (State.init (Frame.entry (CallFlags.ofNat f) none)) (.call p (via == "ct") (CallFlags.ofNat rq) ⟨1, ⟨[], []⟩, "m", sf == "1"⟩)
       if s.halted then (st, "denied")
       else match s.stack with
         | child :: _ => (st, toString child.flags.toNat)
         | [] => (st, "bad")
     | _, _, _ => (st, "bad-op")
   | "calleff" :: via :: f :: rq :: sf :: obs :: names =>
-    match f.toNat?, rq.toNat?, (if via == "ct" then some callTPrim else syscallPrim "System.Contract.Call"), names.mapM syscallPrim with
+    match f.toNat?, rq.toNat?, (if via == "ct" then some (callTPrim st.hf) else syscallPrim st.hf "System.Contract.Call"), names.mapM (syscallPrim st.hf) with
     | some f, some rq, some p, some ps =>
-      let s := step Params.real (State.init ⟨CallFlags.ofNat f, none, false⟩) (.call p (via == "ct") (CallFlags.ofNat rq) ⟨1, ⟨[], []⟩, "m", sf == "1"⟩)
+      let s := step (Params.realAt st.hf) (State.init (Frame.entry (CallFlags.ofNat f) none)) (.call p (via == "ct") (CallFlags.ofNat rq) ⟨1, ⟨[], []⟩, "m", sf == "1"⟩)
       if s.halted then (st, if effWithin (parseEffects obs) ro then "denied" else "denied beyond")
       else match s.stack with
         | child :: _ =>
@@ -225,14 +247,47 @@ def step' (st : St) (ws : List String) : St × String :=
         | [] => (st, "bad")
     | _, _, _, _ => (st, "bad-op")
   | ["loadscript", f, rq] =>
-    match f.toNat?, rq.toNat?, syscallPrim "System.Runtime.LoadScript" with
+    match f.toNat?, rq.toNat?, syscallPrim st.hf "System.Runtime.LoadScript" with
     | some f, some rq, some p =>
-      let s := step Params.real (State.init ⟨CallFlags.ofNat f, none, false⟩) (.loadScript p (CallFlags.ofNat rq))
+      let s := step (Params.realAt st.hf) (State.init (Frame.entry (CallFlags.ofNat f) none)) (.loadScript p (CallFlags.ofNat rq))
       if s.halted then (st, "denied")
       else match s.stack with
         | child :: _ => (st, toString child.flags.toNat)
         | [] => (st, "bad")
     | _, _, _ => (st, "bad-op")
+  | ["tokcall", caller, callee, method, sf] =>
+    match caller.toNat?, callee.toNat?, syscallPrim st.hf "System.Contract.Call" with
+    | some rid, some cid, some sc =>
+      let man (id : Nat) : Manifest := ((st.contracts.find? (·.1 == id)).map (·.2)).getD ⟨[], []⟩
+      let P := Params.realAt st.hf
+      let s1 := step P (State.init (Frame.entry CallFlags.all none)) (.call sc false CallFlags.all ⟨rid, man rid, "ta", false⟩ none)
+      let s2 := step P s1 (.call (callTPrim st.hf) true CallFlags.all ⟨cid, man cid, method, sf == "1"⟩ (some (man rid)))
+      if s2.halted then
+        match s1.stack with
+        | cur :: _ => (st, if cur.flags.has (callTPrim st.hf).req then "fault:perm" else "fault:flags")
+        | [] => (st, "bad")
+      else match s2.stack with
+        | top :: _ => (st, s!"halt {top.flags.toNat}")
+        | [] => (st, "bad")
+    | _, _, _ => (st, "bad-op")
+  | ["updcall", caller, newPerms, callee, method, sf] =>
+    match caller.toNat?, callee.toNat?, syscallPrim st.hf "System.Contract.Call",
+          (if newPerms == "gone" then some none else (parsePerms newPerms).map some) with
+    | some rid, some cid, some sc, some np =>
+      let man (id : Nat) : Manifest := ((st.contracts.find? (·.1 == id)).map (·.2)).getD ⟨[], []⟩
+      let P := Params.realAt st.hf
+      -- entry → caller.upd/des → ContractManagement.update/destroy (id 1000) → back → callee.method; after the
+      -- management call the stored manifest of the caller is the new one (or gone)
+      let stored : Option Manifest := np.map (fun ps => ⟨(man rid).groups, ps⟩)
+      let prog : List Instr := [
+        .call sc false CallFlags.all ⟨rid, man rid, "upd", false⟩ none,
+        .call sc false CallFlags.all ⟨1000, ⟨[], []⟩, "update", false⟩ (some (man rid)),
+        .ret,
+        .call sc false CallFlags.all ⟨cid, man cid, method, sf == "1"⟩ stored]
+      let s := run P (State.init (Frame.entry CallFlags.all none)) prog
+      (st, if s.halted then "fault:perm" else "halt")
+    | _, _, _, _ => (st, "bad-op")
+  | "mvalid" :: _ | "mitem" :: _ | "mcancall" :: _ => (st, (ManIO.step ws).getD "bad-op")
   | _ => (st, "bad-op")
 
 def main : IO Unit := Proto.run ({} : St) step'
